@@ -1088,3 +1088,57 @@ def vroom_hooks():
                 case.fail("C04", "reward-list", f"cell ({x.get_depth()},{x.get_index()}) holds {len(x.reward)} rewards, history credits {len(exp)}", step=t, algo=name); break
 
     return {"after_init": after_init, "after_pull": after_pull, "after_recv": after_recv}
+
+
+# ------------------------------------------------------------------ StroquOOL: C04 (with its documented exception) / C07
+def stroquool_hooks():
+    S = {}
+    name = "StroquOOL"
+
+    def after_init(ctx):
+        S.update(ledger={}, since_reset={}, rounds=0, reset_done=False, dropped=0)
+
+    def after_pull(ctx, t, pt):
+        a, part = ctx["algo"], ctx["part"]
+        S["pulled"] = node_of_point_m(part, pt)
+        S["ended"] = bool(a.end)
+        if a.candidate and not S["reset_done"]:
+            S["reset_done"] = True
+            S["cand"] = [c._vid for c in a.candidate]
+            for v in S["cand"]:
+                S["since_reset"][v] = []
+
+    def after_recv(ctx, t, pt, r):
+        case, a, part = ctx["case"], ctx["algo"], ctx["part"]
+        nd = S.get("pulled")
+        S["rounds"] += 1
+        if S["ended"]:
+            S["dropped"] += 1          # the schedule is over: rewards are ignored by design
+            return
+        if nd is None:
+            case.fail("C04", "point-not-a-representative", f"{pt}", step=t, algo=name); return
+        S["ledger"].setdefault(nd._vid, []).append(r)
+        if S["reset_done"] and nd._vid in S["since_reset"]:
+            S["since_reset"][nd._vid].append(r)
+        for x in reachable(part.get_root()):
+            exp = S["ledger"].get(x._vid, [])
+            if x.visited_times != len(exp):
+                case.fail("C04", "visit-count", f"cell ({x.get_depth()},{x.get_index()}) count {x.visited_times}, history credits {len(exp)}", step=t, algo=name); break
+            want = S["since_reset"][x._vid] if (S["reset_done"] and x._vid in S["since_reset"]) else exp
+            if list(x.rewards) != want:
+                case.fail("C04", "reward-list", f"cell ({x.get_depth()},{x.get_index()}) holds {len(x.rewards)} rewards, expected {len(want)}", step=t, algo=name); break
+
+    def at_end(ctx):
+        case, a, part = ctx["case"], ctx["algo"], ctx["part"]
+        q = ctx.get("last")
+        if q is None or not S["reset_done"]:
+            return
+        nd = node_of_point_m(part, q)
+        if nd is None or nd._vid not in S["since_reset"]:
+            case.fail("C07", "recommendation-not-a-candidate", f"{q}", step="end", algo=name); return
+        mean = lambda v: (math.fsum(S["since_reset"][v]) / len(S["since_reset"][v])) if S["since_reset"][v] else -math.inf
+        best = max(mean(v) for v in S["since_reset"])
+        if not rel_close(mean(nd._vid), best):
+            case.fail("C07", "recommendation-not-best-candidate", f"validation mean {mean(nd._vid)!r}, best {best!r}", step="end", algo=name)
+
+    return {"after_init": after_init, "after_pull": after_pull, "after_recv": after_recv, "at_end": at_end}
